@@ -6,6 +6,7 @@ package main
 import (
 	"bytes"
 	"encoding/json"
+	"flag"
 	"fmt"
 	"runtime"
 	"strings"
@@ -17,6 +18,13 @@ import (
 	"github.com/EliCDavis/vector/vector2"
 	"github.com/EliCDavis/vector/vector3"
 )
+
+// -longlines: also generate legal OBJ lines that do not fit bufio.Scanner's default 64 KiB token.  Off until
+// known_findings.json lists key obj:line-over-64KiB (as known, or as fixed once fixes/C05-obj-long-lines.patch
+// landed): the plugin passes the flag then (or when C05_LONGLINES=1).
+var longLines bool
+
+const longLineKey = "obj:line-over-64KiB"
 
 // ---------- replayable descriptions ----------
 type matDesc struct {
@@ -325,6 +333,11 @@ func fileCase(d fileDesc) (hx.Case, bool) {
 	if fail != "" {
 		c.GoFail, c.FailKey = fail, "obj:text-level"
 	}
+	for _, raw := range strings.Split(d.Text, "\n") {
+		if len(raw) >= 65536 { // structural: the one thing the default bufio.Scanner cannot take
+			c.FailKey = longLineKey
+		}
+	}
 	nf := 0
 	for _, l := range ls {
 		if l.Kind == "f" {
@@ -338,6 +351,7 @@ func fileCase(d fileDesc) (hx.Case, bool) {
 }
 
 func main() {
+	flag.BoolVar(&longLines, "longlines", false, "generate lines longer than 64 KiB")
 	run := hx.ParseFlags("C05", "Check.C05")
 	for _, in := range run.Inputs() {
 		switch in.Kind {
@@ -364,7 +378,12 @@ func main() {
 	for _, d := range fixedWrites() {
 		run.Add(writeCase(d))
 	}
-	for _, t := range fixedFiles() {
+	ff := append(fixedFiles(), fixedTails()...)
+	if longLines {
+		v := "v 0 0 0\nv 1 0 0\nv 0 1 0\n"
+		ff = append(ff, v+"# "+strings.Repeat("x", 70000)+"\nf 1 2 3\n", v+"f 1 2 3"+strings.Repeat(" ", 65536)+"\n")
+	}
+	for _, t := range ff {
 		if c, ok := fileCase(fileDesc{Text: t}); ok {
 			run.Add(c)
 		}
